@@ -63,6 +63,35 @@ theorem wwc_closes_at_count (count skip t0 : Nat) (hc : 0 < count) (hs : 0 < ski
   · have : b * skip ≤ k * skip := Nat.mul_le_mul_right skip (by omega)
     rw [if_neg hkb, if_neg (by omega)]
 
+/-- **wwc_ends_with_source.** The complete picture for count windows: the source delivers the elements `tx`
+and then terminates with `e` (`none` = completed, `some err` = error).  Every window `k` that was ever created
+has ended: by completion if its `count`-th element arrived, otherwise with exactly the source's terminal. -/
+theorem wwc_ends_with_source (count skip t0 : Nat) (hc : 0 < count) (hs : 0 < skip) (tx : List (Nat × α)) (t : Nat)
+    (e : Option Err) (k : Nat) (hk : k * skip ≤ tx.length) :
+    (Cnt.run count skip (Cnt.init t0) (Cnt.nexts tx ++ [(t, .src 0 (endNotif e))])).b.endedOf k =
+      if k * skip + count ≤ tx.length then some none else some e := by
+  rw [Cnt.run_append]
+  obtain ⟨a, b, h⟩ := Cnt.cinv_run hc hs tx (Cnt.cinv_init count skip t0 hc hs) (Cnt.cinv_init_ctl t0)
+  have hctl := Cnt.ctl_run_nexts count skip tx (Cnt.init (α := α) t0) (by
+    have := Cnt.cinv_init_ctl (α := α) t0; simp only [Base.ctl, Prod.mk.injEq] at this; exact this.1)
+  rw [Cnt.cinv_init_ctl] at hctl
+  simp only [List.nil_append] at h
+  generalize Cnt.run count skip (Cnt.init t0) (Cnt.nexts tx) = s at h hctl
+  have hl : s.b.live.contains 0 = true := by
+    simp only [Base.ctl, Prod.mk.injEq] at hctl; simp [hctl.2.2]
+  have h2 := h.a_hi; have hb1 := h.b_lo; have hb2 := h.b_hi
+  simp only [List.length_map] at h2 hb1 hb2
+  have hka : k < a := Nat.lt_of_mul_lt_mul_right (Nat.lt_of_le_of_lt hk h2)
+  show ((Cnt.mach count skip).step s t (.src 0 (endNotif e))).b.endedOf k = _
+  by_cases hkb : k < b
+  · have : k * skip ≤ (b - 1) * skip := Nat.mul_le_mul_right skip (by omega)
+    have hend : s.b.endedOf k = some none := by rw [h.ended k hka, if_pos hkb]
+    rw [Cnt.ended_kept count skip s t e hl k (by rw [hend]; rfl), hend, if_pos (by omega)]
+  · have : b * skip ≤ k * skip := Nat.mul_le_mul_right skip (by omega)
+    have hend : s.b.endedOf k = none := by rw [h.ended k hka, if_neg hkb]
+    have hq : k ∈ s.q := by rw [h.q_eq, List.mem_range'_1]; have := h.ba; omega
+    rw [(Cnt.ends count skip s t _ e rfl hl).1 k hq (by rw [h.len]; exact hka) hend, if_neg (by omega)]
+
 /-! non-vacuity: skip < count (overlap), skip > count (gaps) on concrete inputs -/
 example : (Cnt.run 3 2 (Cnt.init 200) (Cnt.nexts [(210, 'a'), (220, 'b'), (230, 'c'), (240, 'd'), (250, 'e')])).b.wins.map (·.pushed)
     = [['a', 'b', 'c'], ['c', 'd', 'e'], ['e']] := by decide
